@@ -93,6 +93,9 @@ func copyBlock(v reflect.Value, block Block) error {
 		}
 
 		namei := f.Index[0]
+		if x == nil {
+			return fmt.Errorf("block.%s has nil value, cannot be stored in struct.%s", name, f.Name)
+		}
 		vx := reflect.ValueOf(x)
 
 		if vx.Type().AssignableTo(blockType) {
